@@ -16,6 +16,7 @@
 #include <sys/uio.h>
 #include <sys/wait.h>
 #include <unistd.h>
+#include <cerrno>
 #include <cstdarg>
 #include <cstring>
 #include <filesystem>
@@ -34,6 +35,9 @@ static long g_crash_at = -1;              // die at this call index (1-based) ; 
 static bool g_armed = false;
 static std::vector<std::pair<std::string, int>> g_unlinked;  // (file name, content class)
 static int g_fds[64]; static int g_nfds = 0;                  // fds opened inside the directory
+// write-failure injection ("put ... wfail=1"): the next file of the directory that is opened for writing from scratch takes half of
+// its first write and then reports ENOSPC on every later one -- a store interrupted by a full disk rather than by a crash
+static bool g_wfail_arm = false; static int g_wfail_fd = -1; static bool g_wfail_fired = false;
 
 static bool in_dir(const char* p) { return p && !g_dir.empty() && std::strncmp(p, g_dir.c_str(), g_dir.size()) == 0; }
 static void hit() {
@@ -91,32 +95,48 @@ int vf_open64(const char* path, int flags, ...) {
 FILE* vf_fopen64(const char* path, const char* mode) {
     static auto real = reinterpret_cast<FILE* (*)(const char*, const char*)>(dlsym(RTLD_NEXT, "fopen64"));
     bool d = in_dir(path) && std::strlen(path) > g_dir.size() + 1; if (d) hit();
-    FILE* f = real(path, mode); if (d && f) track_fd(fileno(f)); return f;
+    FILE* f = real(path, mode); if (d && f) track_fd(fileno(f));
+    if (d && f && g_wfail_arm && mode && mode[0] == 'w') { g_wfail_arm = false; g_wfail_fd = fileno(f); }
+    return f;
 }
 FILE* vf_fopen(const char* path, const char* mode) {
     static auto real = reinterpret_cast<FILE* (*)(const char*, const char*)>(dlsym(RTLD_NEXT, "fopen"));
     bool d = in_dir(path) && std::strlen(path) > g_dir.size() + 1; if (d) hit();
-    FILE* f = real(path, mode); if (d && f) track_fd(fileno(f)); return f;
+    FILE* f = real(path, mode); if (d && f) track_fd(fileno(f));
+    if (d && f && g_wfail_arm && mode && mode[0] == 'w') { g_wfail_arm = false; g_wfail_fd = fileno(f); }
+    return f;
 }
 ssize_t write(int fd, const void* buf, size_t n) {
     static auto real = reinterpret_cast<ssize_t (*)(int, const void*, size_t)>(dlsym(RTLD_NEXT, "write"));
     if (tracked_fd(fd)) hit();
+    if (fd >= 0 && fd == g_wfail_fd) {
+        if (g_wfail_fired || n / 2 == 0) { g_wfail_fired = true; errno = ENOSPC; return -1; }
+        g_wfail_fired = true; return real(fd, buf, n / 2);
+    }
     return real(fd, buf, n);
 }
 ssize_t writev(int fd, const struct iovec* iov, int cnt) {
     static auto real = reinterpret_cast<ssize_t (*)(int, const struct iovec*, int)>(dlsym(RTLD_NEXT, "writev"));
     if (tracked_fd(fd)) hit();
+    if (fd >= 0 && fd == g_wfail_fd) {
+        static auto real_write = reinterpret_cast<ssize_t (*)(int, const void*, size_t)>(dlsym(RTLD_NEXT, "write"));
+        size_t first = cnt > 0 ? iov[0].iov_len : 0;
+        if (g_wfail_fired || first / 2 == 0) { g_wfail_fired = true; errno = ENOSPC; return -1; }
+        g_wfail_fired = true; return real_write(fd, iov[0].iov_base, first / 2);
+    }
     return real(fd, iov, cnt);
 }
 int fclose(FILE* f) {
     static auto real = reinterpret_cast<int (*)(FILE*)>(dlsym(RTLD_NEXT, "fclose"));
     int fd = f ? fileno(f) : -1;
     if (tracked_fd(fd)) { hit(); untrack_fd(fd); }
+    if (fd >= 0 && fd == g_wfail_fd) g_wfail_fd = -1;
     return real(f);
 }
 int close(int fd) {
     static auto real = reinterpret_cast<int (*)(int)>(dlsym(RTLD_NEXT, "close"));
     if (tracked_fd(fd)) { hit(); untrack_fd(fd); }
+    if (fd >= 0 && fd == g_wfail_fd) g_wfail_fd = -1;
     return real(fd);
 }
 static void note_unlink(const char* path) {
@@ -202,10 +222,12 @@ struct Driver {
         } else if (c.op == "put") {
             long id = c.i("c"), b = c.i("b"), ttl = c.i("ttl");
             { ev::Ev e("begin"); e.s("what", "put").i("c", id).i("b", b).i("ttl", ttl * 1000).i("t", vclock::now_ns() / 1'000'000LL); e.emit(); std::fflush(ev::out()); }
+            g_wfail_fired = false; g_wfail_fd = -1; g_wfail_arm = c.i("wfail", 0) != 0 && persistent;
             store->put(cid(id), payload_bytes(b), std::chrono::seconds(ttl));
+            g_wfail_arm = false; g_wfail_fd = -1;
             long long dl = -1;
             for (auto& s : store->snapshot()) if (s.id == cid(id)) dl = vclock::steady_to_ns(s.expires_at) / 1'000'000LL;
-            ev::Ev e("put"); e.i("c", id).i("b", b).i("ttl", ttl * 1000).i("dl", dl); common(e); e.emit();
+            ev::Ev e("put"); e.i("c", id).i("b", b).i("ttl", ttl * 1000).i("dl", dl).i("wfail", g_wfail_fired ? 1 : 0); common(e); e.emit();
         } else if (c.op == "get" || c.op == "rec") {
             long id = c.i("c");
             std::optional<ChunkData> data;
